@@ -123,6 +123,19 @@ def run(chk):
             chk.run("C02.R1", f"{MOD}:BurgerEquation.equation", {"kind": kind, "outputs": 2, "slice_solution": "[1:2]"}, go_aux,
                     construct="BurgerEquation[PINN, auxiliary output]")
 
+        # the time-rescaling factor as the CONSTRUCTOR stores it (field converters / defaults included): a non-integer Tmax
+        if kind == 'PINN':
+            def go_tmax(kind=kind):
+                from fractions import Fraction
+                inst = cls("BurgerEquation")(Tmax=2.5)
+                t, x = inputs(kind, 1)
+                u = Net('u', kind, 1, 'nonstatio_PDE', 1)
+                r = inst.evaluate(t, x, u, params({"nu": Pm("nu")}))
+                exp = [q.map_atoms(lambda a_: Poly.const(Fraction(5, 2)) if a_ == ('K', 'Tmax') else a_) for q in spec_burgers()]
+                return compare(r, exp, (1,), "BurgerEquation")
+            chk.run("C02.R1", f"{MOD}:BurgerEquation.equation", {"kind": kind, "Tmax": 2.5, "built_by": "constructor"}, go_tmax,
+                    construct="BurgerEquation[PINN, Tmax = 2.5 through the constructor]")
+
         # Fisher-KPP, arbitrary dimension
         for d in ((1, 2, 3) if thorough else (1, 2)):
             def go(kind=kind, d=d):
